@@ -655,6 +655,9 @@ def query (x : Ctx) (q : String) : Q String := do
       | "countafter" => .inr (l.drop arg).length
       | "foldafter" => .inl (l.drop arg)
       | "nthhuge" => .inl []
+      | "nthcount" => .inr (l.drop (arg + 1)).length
+      | "nthlast" => .inl (l.drop (arg + 1)).getLast?.toList
+      | "nthhint" => .inr 1
       | _ => .inl []
     match kind with
     | "windows" => do
